@@ -466,6 +466,7 @@ func (cpu *CPU) cmdRead() byte {
 
 	case m_DP_Indirect_Long,
 		m_DP_Indirect_Long_Y,
+		m_DP_Indirect_Y,
 		m_Absolute_Long,
 		m_Absolute_Long_X,
 		m_Absolute_X,
@@ -475,8 +476,7 @@ func (cpu *CPU) cmdRead() byte {
 
 	case m_Absolute,
 		m_DP_X_Indirect,
-		m_DP_Indirect,
-		m_DP_Indirect_Y:
+		m_DP_Indirect:
 		return cpu.Bus.nRead(cpu.RDBR, cpu.StepInfo.Addr)
 
 	default:
@@ -502,6 +502,7 @@ func (cpu *CPU) cmdRead16() uint16 {
 
 	case m_DP_Indirect_Long,
 		m_DP_Indirect_Long_Y,
+		m_DP_Indirect_Y,
 		m_Absolute_Long,
 		m_Absolute_Long_X,
 		m_Absolute_X,
@@ -512,8 +513,7 @@ func (cpu *CPU) cmdRead16() uint16 {
 
 	case m_Absolute,
 		m_DP_X_Indirect,
-		m_DP_Indirect,
-		m_DP_Indirect_Y:
+		m_DP_Indirect:
 		return cpu.Bus.nRead16_cross(cpu.RDBR, cpu.StepInfo.Addr)
 
 	default:
@@ -532,6 +532,7 @@ func (cpu *CPU) cmdWrite(value byte) {
 
 	case m_DP_Indirect_Long,
 		m_DP_Indirect_Long_Y,
+		m_DP_Indirect_Y,
 		m_Absolute_Long,
 		m_Absolute_Long_X,
 		m_Absolute_X,
@@ -541,8 +542,7 @@ func (cpu *CPU) cmdWrite(value byte) {
 
 	case m_Absolute,
 		m_DP_X_Indirect,
-		m_DP_Indirect,
-		m_DP_Indirect_Y:
+		m_DP_Indirect:
 		cpu.Bus.nWrite(cpu.RDBR, cpu.StepInfo.Addr, value)
 
 	default:
@@ -560,6 +560,7 @@ func (cpu *CPU) cmdWrite16(value uint16) {
 
 	case m_DP_Indirect_Long,
 		m_DP_Indirect_Long_Y,
+		m_DP_Indirect_Y,
 		m_Absolute_Long,
 		m_Absolute_Long_X,
 		m_Absolute_X,
@@ -569,8 +570,7 @@ func (cpu *CPU) cmdWrite16(value uint16) {
 
 	case m_Absolute,
 		m_DP_X_Indirect,
-		m_DP_Indirect,
-		m_DP_Indirect_Y:
+		m_DP_Indirect:
 		cpu.Bus.nWrite16_cross(cpu.RDBR, cpu.StepInfo.Addr, value)
 
 	default:
@@ -901,12 +901,14 @@ func (cpu *CPU) Step() (int, bool) {
 	// ($12), Y       - p. 304 or 5.12
 	case m_DP_Indirect_Y:
 		arg8 = cpu.Bus.nRead(cpu.RK, cpu.PC+1)
+		arg16 = cpu.Bus.nRead16_wrap(0, uint16(arg8)+cpu.RD)
+		// the index is added to the 24-bit address DBR:pointer and may carry into the next bank
 		if cpu.X == 1 {
-			addr = cpu.Bus.nRead16_wrap(0, uint16(arg8)+cpu.RD) + uint16(cpu.RYl)
-			pageCrossed = pagesDiffer(addr-uint16(cpu.RYl), addr)
+			ea = ((uint32(cpu.RDBR)<<16 | uint32(arg16)) + uint32(cpu.RYl)) & 0x00ffffff // wrap on 24bits
+			pageCrossed = pagesDiffer(arg16, arg16+uint16(cpu.RYl))
 		} else {
-			addr = cpu.Bus.nRead16_wrap(0, uint16(arg8)+cpu.RD) + cpu.RY
-			pageCrossed = pagesDiffer(addr-cpu.RY, addr)
+			ea = ((uint32(cpu.RDBR)<<16 | uint32(arg16)) + uint32(cpu.RY)) & 0x00ffffff // wrap on 24bits
+			pageCrossed = pagesDiffer(arg16, arg16+cpu.RY)
 		}
 
 	// [$12], Y       - p. 305 or 5.13
